@@ -192,3 +192,11 @@ Proof.
     + apply IHo; [exact Io | exact Hadd | intro H; apply Hn0; right; exact H | exact Hr'].
   - intros c Hin. apply Hn. destruct chunks as [| c0 r]; [contradiction | right; exact Hin].
 Qed.
+
+Lemma SD_first : forall f chunks q x rest, reachable q -> tq_iter q = x :: rest ->
+  exists log', snd (fst (shutdown (S f) chunks q)) = RItem (fst x) (snd x) :: log'.
+Proof.
+  intros f chunks q x rest R E. assert (I := inv_reachable q R). rewrite iter_ok in E.
+  destruct (contents q) as [| x0 rest0] eqn:C; [discriminate |]. simpl in E. inversion E; subst.
+  exact (shutdown_first f chunks q x0 rest0 I C).
+Qed.
